@@ -44,6 +44,8 @@ pub struct Exec {
     pub mutated: bool,
     /// drop the combinator from inside the unwinding of a panicking poll
     pub unwind_drop: bool,
+    /// keep polling after an injected panic was caught
+    pub repoll_after_panic: bool,
 }
 
 pub fn fresh_flag() -> Arc<PFlag> {
@@ -77,6 +79,7 @@ impl Exec {
         let (top_id, top) = build_top(&case.root);
         let mut e = Exec::with_top(top_id, top);
         e.unwind_drop = case.unwind_drop;
+        e.repoll_after_panic = case.repoll_after_panic;
         e
     }
 
@@ -98,6 +101,7 @@ impl Exec {
             waker_changes_while_parked: 0,
             mutated: false,
             unwind_drop: false,
+            repoll_after_panic: false,
         }
     }
 
@@ -255,6 +259,24 @@ impl Exec {
                 // a group that returned None can be refilled and used again
                 self.finished = !is_group;
             }
+            Err(e) if e.is::<Injected>() && self.repoll_after_panic && !self.dropped => {
+                // the caller caught the panic and keeps the combinator: what it
+                // does from now on is unspecified, except that it must still own
+                // and release everything exactly once and never hand out a value
+                // that no child produced
+                self.injected_panic = true;
+                world::comb_poll_end(id, Answer::Panic);
+                world::with(|w| {
+                    if w.post_panic.is_none() {
+                        w.post_panic = Some(w.clock);
+                    }
+                    if w.trace_on {
+                        w.trace.push(" (the caller catches the panic and goes on polling; only ownership is judged from here on)".into());
+                    }
+                });
+                // it polls again without waiting for a wake-up
+                self.mutated = true;
+            }
             Err(e) => {
                 world::comb_poll_panicked(id);
                 self.panicked = true;
@@ -262,6 +284,9 @@ impl Exec {
                     self.inconclusive = Some("runaway: a child was polled more than 20000 times inside one poll");
                 } else if e.is::<Injected>() {
                     self.injected_panic = true;
+                } else if world::with(|w| w.post_panic.is_some()) {
+                    // a panic of a combinator that is polled on after a child's
+                    // panic was caught: unspecified, not judged
                 } else {
                     let msg = world::panic_msg(&e);
                     world::with(|w| {
